@@ -340,6 +340,13 @@ func cmdCheck(args []string) {
 		suffix := writeReplay(w, rp, *prop, bad, *repo)
 		fmt.Printf("VIOLATION property=%s replay=%s%s\n", *prop, rp, suffix)
 	}
+	vacStat := map[string]int{}
+	for _, o := range vac {
+		vacStat[o.Status]++
+	}
+	if os.Getenv("GOVC_DEBUG") != "" {
+		fmt.Fprintln(os.Stderr, "vacuity answers:", vacStat)
+	}
 	for _, o := range vac {
 		if o.Status == "discharged" { // "false" was provable: vacuous
 			violations++
@@ -401,6 +408,7 @@ func cmdCheck(args []string) {
 		"samples":                  samples,
 		"unclaimed":                unclaimedNames,
 		"vacuity_checks":           len(vac),
+		"vacuity_note":             fmt.Sprintf("a vacuity check asks the solver to prove false from a function's assumptions at its exits; %d were refuted outright (sat), %d found no contradiction within the limit (inconclusive), 0 proved false", vacStat["failed"], vacStat["unknown"]),
 		"integers":                 "mathematical Int with a range obligation at every + - * and narrowing conversion (range.* obligations, property C05)",
 		"explanation":              "every listed obligation is a verification condition generated from the SSA of /repo's current working tree (build tag verif) and the //@ contracts in /repo/**/contracts_verif.go; discharged means one SMT back end answered unsat for the negated goal",
 	}
